@@ -257,10 +257,9 @@ class Ctx:
         rec = {'name': name or module, 'states': r.distinct, 'generated': r.generated,
                'wall_s': round(r.wall, 1)}
         if expect_violation:
-            ok = (r.rc != 0 and ('Invariant %s is violated' % expect_violation in r.stdout or
-                                 'Action property %s is violated' % expect_violation in r.stdout
-                                 or ('invariant of %s is equal to FALSE' % expect_violation) in r.stdout
-                                 or ('property %s' % expect_violation) in r.stdout))
+            names = [expect_violation] if isinstance(expect_violation, str) else list(expect_violation)
+            ok = r.rc != 0 and any(('Invariant %s is violated' % n) in r.stdout or ('Action property %s is violated' % n) in r.stdout
+                                   or ('invariant of %s is equal to FALSE' % n) in r.stdout or ('property %s' % n) in r.stdout for n in names)
             rec['result'] = 'mutant rejected' if ok else 'MUTANT ACCEPTED'
             self.mc_results.append(rec)
             if not ok:
